@@ -814,4 +814,11 @@ theorem hist : History params 2 acts final := by decide
 
 end Ex
 
+/-- the model's `wrap64` is the balanced remainder modulo 2^64, i.e. what `BitVec.toInt` of a 64-bit result is
+(used by the `C08_tr_*` theorems) -/
+theorem wrap64_eq_bmod (x : Int) : wrap64 x = x.bmod (2 ^ 64) := by
+  unfold wrap64 Int.bmod two63 two64
+  simp only [show ((2:Nat)^64 : Nat) = 18446744073709551616 from rfl]
+  split <;> split <;> omega
+
 end Fatchoy.C08
